@@ -13,6 +13,12 @@ Every scheduling choice is an explicit event, so "for every interleaving" is
                        whole backlog is pushed into the new client's queue and
                        only then is the client inserted into `m.subscribers`
                        (one handler step: nothing else touches the map).
+                       The lookup itself runs inside this handler step
+                       (`Gen.Subs.backlogLookupCallers`): while it is in
+                       progress the handler takes nothing from the source, so a
+                       notification emitted meanwhile is an `emit` BEFORE this
+                       event whose `handlerFanout` comes AFTER it — it reaches
+                       the new client after its backlog.
   `subscribeFail id h` the same call when `NotificationsSinceHeight` fails.
   `emit n`             the source makes `n` available on `Notifications()`.
   `handlerFanout`      the handler takes the oldest available notification and
